@@ -87,6 +87,13 @@ def gen_case(seed):
         script.append({"t": 0.3, "side": "client", "op": "write", "sid": 0, "n": r5.choice([2000, 20000]), "fin": False})
         script.sort(key=lambda o: o["t"])
         pattern += "+twice"
+    r7 = random.Random("c13-close/%s" % seed)
+    if pattern == "silent-client" and r7.random() < 0.5:
+        # ... and the server application gives up and closes while the budget is (nearly) used up: closing packets are
+        # datagrams to an unvalidated address like any other
+        script.append({"t": r7.choice([0.3, 0.65, 1.0, 2.5, 6.0]), "side": "server", "op": "close", "early": True, "code": r7.choice([0, 1, 0x10E]),
+                       "frame_type": r7.choice([None, 6]), "reason": r7.choice(["", "bye", "x" * 100, "y" * 600])})
+        pattern += "+server-close"
     r6 = random.Random("c13-spoofinit/%s" % seed)
     if pattern in ("plain", "spoof") and r6.random() < 0.5:
         # an attacker who can read the client's first datagram (Initial keys are public) sends, with the victim's address as
